@@ -286,3 +286,15 @@ def quick_feasible(terms, timeout=3.0):
     r, _ = _forked_check(list(terms), timeout, False, None, {})
     STATS["solver_s"] += time.time() - t0
     return r
+
+
+def feasible_int_value(terms, t, timeout=5.0):
+    """an integer value the term t can take under `terms` (None when infeasible/unknown)"""
+    c = z3.Int("cval!probe")
+    STATS["queries"] += 1
+    t0 = time.time()
+    r, mdl = _forked_check(list(terms) + [c == (t if t.sort() == z3.IntSort() else z3.ToInt(t))], timeout, True, {"cval!probe": c}, {})
+    STATS["solver_s"] += time.time() - t0
+    if r != "sat" or not mdl or "cval!probe" not in mdl:
+        return None
+    return int(mdl["cval!probe"])
